@@ -29,7 +29,7 @@ m = {
     "hooks": {
         "guard": "verif",
         "enable": "no source hooks in /repo: harness files and engine packages are injected with `go test -overlay` and carry `//go:build verif`; checks build with -tags verif",
-        "baseline_off_cmd": "cd /repo && go build ./... && go test -vet=off -count=1 -timeout 25m ./...",
+        "baseline_off_cmd": "for m in . ./website; do (cd /repo/$m && go test -mod=mod -json -vet=off -count=1 -timeout 25m ./...); done",
         "source_commits": [],
         "add_only": True,
     },
